@@ -28,10 +28,10 @@ def http_tables(sc):
 
 
 HTTP_RUN = {"harness": "hhttp", "driver": "httpdrv", "fields": ["cache", "err", "st", "msgs"], "corpus": "http",
-            "quick": {"n": 1500, "shards": 16}, "thorough": {"n": 40000, "shards": 32}}
+            "quick": {"n": 1500, "shards": 16}, "thorough": {"n": 12000, "shards": 32}}
 
 C07_RUN = {"harness": "hhttp7", "driver": "httpdrv", "fields": ["render", "err", "cache", "st", "nb", "offs", "ref"], "corpus": "http7",
-           "quick": {"n": 700, "shards": 16}, "thorough": {"n": 20000, "shards": 32}}
+           "quick": {"n": 700, "shards": 16}, "thorough": {"n": 6000, "shards": 32}}
 
 # engine-level "nothing further after an error" (DESIGN 8 #12): real nbhttp engines over loopback in the three I/O modes;
 # implementation-only stream (the Lean side is theorem c08_silent_after_close), so no k=v field is compared
